@@ -293,6 +293,33 @@ def run_factory_pair(framing, a, b, ka):
     return vio
 
 
+def run_exception_answer(framing, kind, code, ka):
+    """The inverter answers a read / write / write-multi request with a Modbus exception frame (any code): the request
+    never completes successfully with that frame - it is not a well-formed answer to any request."""
+    world.reset()
+
+    def plan(k, req, now):
+        try:
+            rq = wire.parse_tcp_request(req) if framing == 'tcp' else wire.parse_rtu_request(req)
+        except wire.BadRequest:
+            return []
+        pdu = bytes([rq['fn'] | 0x80, code])
+        f = wire.mbap(req[:2], rq['unit'], pdu) if framing == 'tcp' else wire.rtu_frame(rq['unit'], pdu)
+        return [(D0, ('data', f))]
+    peer = PlanPeer(plan)
+    loop = KLoop(peer)
+    p = make_protocol('tcp' if framing == 'tcp' else 'udp', 1, 0, ka)
+    cmd, spec = {'read': (lambda: (p.read_command(0x891C, 3), dict(kind='read', count=3))),
+                 'write': (lambda: (p.write_command(47000, 5), dict(kind='write', reg=47000, value=5))),
+                 'multi': (lambda: (p.write_multi_command(47515, bytes(8)), dict(kind='multi', reg=47515, count=4)))}[kind]()
+    st, res = loop.run(_exec(cmd, p))
+    if st == 'hang':
+        return [('validator-terminates', f'{kind} answered by exception {code}')]
+    if res[0] == 'ok' and wire.classify_response(framing, spec, bytes(res[1])) != 'wellformed':
+        return [('delivered-only-wellformed/exception-frame', f'{kind} request answered by exception code {code} completed with {bytes(res[1]).hex()}')]
+    return []
+
+
 PRIOR_KINDS = ('none', 'typed-same', 'typed-other', 'raw-same-bytes', 'raw-other-bytes')
 
 
@@ -454,6 +481,13 @@ def run(tier, seed, rep):
                 nfp += 1
                 for clause, cause in run_factory_pair(framing, a, b, ka):
                     rep.add(f'{clause}/{framing}/{b[0]}-after-{a[0]}', clause, dict(part='F', framing=framing, a=list(a), b=list(b), ka=ka), dict(cause=cause))
+    for framing in ('rtu', 'tcp'):
+        for kind in ('read', 'write', 'multi'):
+            for code in list(range(0, 16)) + [0x7F, 0x80, 0x85, 0xFF]:
+                for ka in (False, True):
+                    nfp += 1
+                    for clause, cause in run_exception_answer(framing, kind, code, ka):
+                        rep.add(f'{clause}/{framing}/{kind}', clause, dict(part='X', framing=framing, kind=kind, code=code, ka=ka), dict(cause=cause))
     nt = 0
     for framing in ('rtu', 'tcp', 'aa55'):
         for name, data in transport_cases(framing):
@@ -486,6 +520,8 @@ def replay(r):
         out = sessions.replay(r)
         out['violations'] = [m for m in out['violations'] if m[0] == 'C01']
         return out
+    if r['part'] == 'X':
+        return dict(violations=run_exception_answer(r['framing'], r['kind'], r['code'], r['ka']))
     if r['part'] == 'F':
         return dict(violations=run_factory_pair(r['framing'], tuple(r['a']), tuple(r['b']), r['ka']))
     if r['part'] == 'C':
